@@ -275,14 +275,16 @@ def finish(run, results, undecided=None):
         try:
             import witness
             binary = witness.crate_for(REPO, run.log)
-            rc, out = witness.run_one(binary, st['argv']) if binary else (None, None)
+            argv = st.get('argv_thorough', st['argv']) if run.tier == 'thorough' else st['argv']
+            rc, out = witness.run_one(binary, argv, timeout=3600) if binary else (None, None)
         except Exception as e:
             rc, out = None, {'error': repr(e)}
-        entry = {'function': st['fn'], 'why_not_verified': st['why'], 'bound': st['bound'], 'command': 'replay ' + ' '.join(st['argv']),
+        entry = {'function': st['fn'], 'why_not_verified': st['why'], 'bound': st['bound'] + (' [thorough tier: replay %s, %s]' % (' '.join(argv), st.get('bound_thorough', 'larger bound')) if argv != st['argv'] else ''),
+                 'command': 'replay ' + ' '.join(argv),
                  'result': 'pass' if rc == 0 else ('fail' if rc == 1 else 'not-run'),
                  'stats': {k: v for k, v in (out or {}).items() if not isinstance(v, (list, dict))}}
         bounded.append(entry)
-        run.log('bounded stand-in %s: %s' % (' '.join(st['argv']), entry['result']))
+        run.log('bounded stand-in %s: %s' % (' '.join(argv), entry['result']))
         if rc == 1:
             fails = (out or {}).get('failures') or []
             open_keys = {k: f for f in open_findings for k in f.get('keys', [])}
